@@ -24,6 +24,7 @@ func init() {
 }
 
 const lpr = "net/client/limitParallelRequests.LimitParallelRequests"
+const lprPkg = "net/client/limitParallelRequests"
 
 func runC16(e *Env) {
 	r := e.R
@@ -33,6 +34,20 @@ func runC16(e *Env) {
 	r.Rule("C16.R4", "flows", "FIFO append / pop-front / order-preserving removal", 3)
 	r.Rule("C16.R5", "flows", "cancel path identifies the waiter by its own channel", 3)
 	r.Rule("C16.R6", "paths", "waiter channel closed exactly where a slot is granted", 3)
+	r.Rule("C16.R7", "flows", "the two configured limits reach the limiter uncrossed (config field → constructor parameter → limiter field)", 6)
+	r.Rule("C16.R8", "paths", "the endpoint key covers the Uri-Path options and nothing else", 2)
+	if e.want("C16.R7") {
+		checkArgPlumbing(e, "C16.R7", []argPlumb{
+			{"udp/client.NewConnWithOpts", lprPkg + ".New", "limit", "LimitClientParallelRequests"},
+			{"udp/client.NewConnWithOpts", lprPkg + ".New", "endpointLimit", "LimitClientEndpointParallelRequests"},
+			{"tcp/client.NewConnWithOpts", lprPkg + ".New", "limit", "LimitClientParallelRequests"},
+			{"tcp/client.NewConnWithOpts", lprPkg + ".New", "endpointLimit", "LimitClientEndpointParallelRequests"},
+		})
+		checkCtorInit(e, "C16.R7", lprPkg+".New", map[string]string{"limit": "limit", "endpointLimit": "endpointLimit"})
+	}
+	if e.want("C16.R8") {
+		c16Key(e)
+	}
 
 	acq := e.fn("C16.R1", lpr+".acquireEndpoint")
 	rel := e.fn("C16.R1", lpr+".releaseEndpoint")
@@ -450,4 +465,74 @@ func c16Close(e *Env, acq, rel *ssa.Function) {
 		cs := closes(rel)
 		e.R.Check(len(cs) == 1, rule, lpr+".releaseEndpoint:hand-over", e.fpos(rel), "exactly one hand-over: the front waiter's channel is closed", fmt.Sprintf("%d close() sites in releaseEndpoint (expected 1)", len(cs)))
 	}
+}
+
+// c16Key: hash() feeds the checksum only with the values of Uri-Path options: every Write of an option value is reachable only
+// on the `opt.ID == URIPath` edge, or iterates the exact [start,end) window that Find(URIPath) returned.
+func c16Key(e *Env) {
+	rule := "C16.R8"
+	f := e.fn(rule, lprPkg+".hash")
+	if f == nil {
+		return
+	}
+	uriPath, _, okc := e.P.ConstValue("message", "URIPath")
+	if !okc {
+		e.R.Undecided(rule, "message.URIPath", "-", "constant not found")
+		return
+	}
+	writes := core.Calls(f, func(n string, _ ssa.CallInstruction) bool { return strings.HasSuffix(n, ".Write") })
+	okAll := len(writes) > 0
+	why := "no Write of option values"
+	for _, w := range writes {
+		guarded := false
+		for _, i := range core.IfsOf(f) {
+			cmp, ok := core.AsCmp(i.Cond)
+			if !ok || cmp.Op != token.EQL {
+				continue
+			}
+			k, isK := core.ConstInt(cmp.Y)
+			if !isK {
+				continue
+			}
+			if _, fl, isF := core.FieldOf(derefLoad(cmp.X)); isF && fl == "ID" && k == uriPath && core.OnlyViaEdge(i, true, w.(ssa.Instruction)) {
+				guarded = true
+			}
+		}
+		if !guarded && c16FindWindow(f) {
+			guarded = true
+		}
+		if !guarded {
+			okAll, why = false, "an option value is hashed without testing that its ID is Uri-Path (and not inside Find's exact [start,end) window): requests for one path that differ in another option get different queues at "+e.pos(w.(ssa.Instruction))
+		}
+	}
+	e.R.Check(okAll, rule, lprPkg+".hash:only-uri-path", e.fpos(f), "every hashed value belongs to a Uri-Path option", why)
+	// and every Uri-Path option is hashed: the loop has no early exit
+	e.R.Check(earlyLoopExit(f) == "", rule, lprPkg+".hash:all-segments", e.fpos(f), "the loop over the options runs to exhaustion", "not every path segment takes part in the key: "+earlyLoopExit(f))
+}
+
+func derefLoad(v ssa.Value) ssa.Value {
+	v = core.Unwrap(v)
+	if ld, ok := v.(*ssa.UnOp); ok && ld.Op == token.MUL {
+		return ld.X
+	}
+	return v
+}
+
+// c16FindWindow: the options are sliced with both indices taken from one Options.Find(URIPath) call.
+func c16FindWindow(f *ssa.Function) bool {
+	ok := false
+	core.Instrs(f, func(in ssa.Instruction) {
+		sl, isSl := in.(*ssa.Slice)
+		if !isSl || sl.Low == nil || sl.High == nil {
+			return
+		}
+		lo, isLo := core.Unwrap(sl.Low).(*ssa.Extract)
+		hi, isHi := core.Unwrap(sl.High).(*ssa.Extract)
+		if isLo && isHi && lo.Tuple == hi.Tuple && lo.Index == 0 && hi.Index == 1 {
+			if c, isC := lo.Tuple.(*ssa.Call); isC && strings.HasSuffix(core.CalleeName(c), "Options.Find") {
+				ok = true
+			}
+		}
+	})
+	return ok
 }
